@@ -350,6 +350,32 @@ func boundaryCorpus() []corpusCase {
 	for _, n := range []int{stackitem.MaxSize, stackitem.MaxSize + 1} {
 		add(valCase("nef", mkNef(func(f *nef.File) { f.Script = make([]byte, n) })))
 	}
+	add(valCase("nef", mkNef(func(f *nef.File) { f.Tokens = []nef.MethodToken{{Method: "_a", CallFlag: 1}} })))
+	add(valCase("nef", mkNef(func(f *nef.File) { f.Tokens = []nef.MethodToken{{Method: "a_", CallFlag: 1}} })))
+	{
+		// reserved bytes must be zero: byte after the source, two bytes after the tokens
+		f := mkNef(func(f *nef.File) {})
+		b, _ := encBytes(f)
+		for _, off := range []int{4 + 64 + 1, 4 + 64 + 1 + 1 + 1, 4 + 64 + 1 + 1 + 2} {
+			for _, v := range []byte{1, 0x80} {
+				nb := append([]byte{}, b...)
+				nb[off] = v
+				add(rawCase("nef", nb))
+			}
+		}
+		nb := append([]byte{}, b...)
+		nb[len(nb)-1] ^= 1 // wrong checksum
+		add(rawCase("nef", nb))
+		nb = append([]byte{}, b...)
+		nb[0] ^= 1 // wrong magic
+		add(rawCase("nef", nb))
+	}
+	// --- byte strings of a stack item at MaxSize and one over, as raw bytes (the serialiser refuses the latter) ---
+	for _, n := range []int{stackitem.MaxSize, stackitem.MaxSize + 1} {
+		for _, tag := range []byte{byte(stackitem.ByteArrayT), byte(stackitem.BufferT)} {
+			add(rawCase("item", cat([]byte{tag}, minimalVarUint(uint64(n)), make([]byte, n))))
+		}
+	}
 	// --- message framing: payload length at and over payload.MaxSize (32 MiB of zeroes, really present) ---
 	for _, n := range []int{payload.MaxSize, payload.MaxSize + 1} {
 		w := io.NewBufBinWriter()
